@@ -128,7 +128,7 @@ def timeline(t0: float, interval: float, timeout: float, delays, unsolicited, t_
     return req, resets
 
 
-def check_api(gen: int, pat, inst, state, stats: Stats | None):
+def _check_api(gen: int, pat, inst, state, stats: Stats | None):
     case = {"mode": "api", "gen": gen, "pattern": pat, "inst": inst, "state": state}
 
     def bad(key, what):
@@ -247,7 +247,7 @@ def _record(stats, case, pat, exp_resets, tag):
                sample={"mode": tag, "n": pat["n"], "delays": ds, "unsolicited": pat["unsolicited"], "expected_resets": exp_resets})
 
 
-def check_bare(gen: int, pat, interval: float, timeout: float, stats: Stats | None):
+def _check_bare(gen: int, pat, interval: float, timeout: float, stats: Stats | None):
     case = {"mode": "bare", "gen": gen, "pattern": pat, "interval": interval, "timeout": timeout}
 
     def bad(key, what):
@@ -317,6 +317,28 @@ def check_bare(gen: int, pat, interval: float, timeout: float, stats: Stats | No
 # (interval, timeout) pairs; interval / 300 is a power of two so that every scaled delay stays a dyadic rational
 # (exact float arithmetic: a response and a deadline coincide exactly or not at all)
 CONFIGS = [(300.0, 330.0), (150.0, 165.0), (75.0, 82.5), (37.5, 41.25), (600.0, 660.0), (75.0, 112.5), (150.0, 300.125), (37.5, 38.0)]
+
+
+def _no_livelock(stats, case, fn, *a):
+    """A heartbeat loop that never sleeps keeps the event loop busy for ever inside one instant: requests without
+    end instead of one per interval."""
+    from pav.vloop import Livelock
+    try:
+        return fn(*a)
+    except Livelock as exc:
+        if stats is not None:
+            stats.fatal = True
+        raise Violation("C08:livelock", f"the client never becomes idle (requests / resets without pause): {exc}", case)
+
+
+def check_api(gen: int, pat, inst, state, stats: Stats | None):
+    return _no_livelock(stats, {"mode": "api", "gen": gen, "pattern": pat, "inst": inst, "state": state},
+                        _check_api, gen, pat, inst, state, stats)
+
+
+def check_bare(gen: int, pat, interval: float, timeout: float, stats: Stats | None):
+    return _no_livelock(stats, {"mode": "bare", "gen": gen, "pattern": pat, "interval": interval, "timeout": timeout},
+                        _check_bare, gen, pat, interval, timeout, stats)
 
 
 def shards(tier: str):
